@@ -361,29 +361,41 @@ Lemma in_effect_install (k : N) (r : string * string) (c : config) :
   in_effect (install_layout k r c) = r.
 Proof. destruct r; reflexivity. Qed.
 
+Lemma kbtype_number_known (n : N) : kb_lt n -> kbtype_number (Z.of_N n) = Some n.
+Proof.
+  intros Hn. unfold kbtype_number.
+  assert (Hsmall : 0 <= Z.of_N n <= 255) by (unfold kb_lt in Hn; change n_kb with 17%N in Hn; lia).
+  destruct (Z.leb_spec 0 (Z.of_N n)); [|lia]. destruct (Z.leb_spec (Z.of_N n) 255); [|lia].
+  cbn [andb]. rewrite N2Z.id. destruct kb_conv_parts as (H1 & _). exact (proj1 (H1 n Hn)).
+Qed.
+
+Lemma kbtype_number_unknown (v : Z) : ~ (0 <= v < Z.of_N n_kb) -> kbtype_number v = None.
+Proof.
+  intros Hv. unfold kbtype_number.
+  destruct (Z.leb_spec 0 v); [|reflexivity]. destruct (Z.leb_spec v 255); [|reflexivity].
+  cbn [andb]. destruct kb_conv_parts as (_ & H2 & _). apply H2; [lia|].
+  unfold kb_lt. intros Hlt. apply Hv. lia.
+Qed.
+
 Lemma set_KBType_known (n : N) (c : config) :
   kb_lt n ->
   let '(r, c') := set_KBType (Z.of_N n) c in
   r = 0 /\ kb_compat c' = n /\ in_effect c' = row_by_number n /\ opts c' = opts c /\ sel_keys c' = sel_keys c.
 Proof.
-  intros Hn. unfold set_KBType, kbtype_number.
-  assert (Hsmall : 0 <= Z.of_N n < 256) by (unfold kb_lt in Hn; change n_kb with 17%N in Hn; lia).
-  rewrite as_u8_small, N2Z.id by exact Hsmall.
-  destruct kb_conv_parts as (H1 & _). rewrite (proj1 (H1 n Hn)).
+  intros Hn. unfold set_KBType. rewrite (kbtype_number_known n Hn).
   rewrite Z.eqb_refl, andb_false_r. rewrite in_effect_install. cbn. repeat split.
 Qed.
 
-(* a number whose low byte is not a layout number: default layout, -1 *)
-Lemma set_KBType_unknown_byte (v : Z) (c : config) :
-  ~ kb_lt (as_u8 v) ->
+(* EVERY number that is not a layout number: default layout, -1 *)
+Lemma set_KBType_unknown (v : Z) (c : config) :
+  ~ (0 <= v < Z.of_N n_kb) ->
   let '(r, c') := set_KBType v c in
   r = -1 /\ kb_compat c' = KB_Default /\ in_effect c' = row_by_number KB_Default /\
   opts c' = opts c /\ sel_keys c' = sel_keys c.
 Proof.
-  intros Hn. unfold set_KBType, kbtype_number.
-  destruct kb_conv_parts as (_ & H2 & _). rewrite (H2 _ (as_u8_lt v) Hn).
+  intros Hn. unfold set_KBType. rewrite (kbtype_number_unknown v Hn).
   assert (Hne : Z.of_N KB_Default <> v).
-  { intros <-. apply Hn. unfold kb_lt. vm_compute. reflexivity. }
+  { intros <-. apply Hn. vm_compute. split; [discriminate | reflexivity]. }
   apply Z.eqb_neq in Hne. rewrite Hne, N.eqb_refl, in_effect_install. cbn. repeat split.
 Qed.
 
@@ -522,11 +534,12 @@ Proof. vm_compute. reflexivity. Qed.
 
 Lemma kbtype_number_lt (v : Z) (k : N) : kbtype_number v = Some k -> kb_lt k.
 Proof.
-  unfold kbtype_number. intros H.
-  destruct kb_conv_parts as (H1 & H2 & _).
-  destruct (N.ltb_spec (as_u8 v) n_kb) as [Hl|Hl].
-  - rewrite (proj1 (H1 _ Hl)) in H. inversion H; subst. exact Hl.
-  - rewrite (H2 _ (as_u8_lt v)) in H; [discriminate | unfold kb_lt; lia].
+  intros H. destruct (Z.le_gt_cases 0 v) as [H0|H0]; [destruct (Z.lt_ge_cases v (Z.of_N n_kb)) as [H1|H1]|].
+  - replace v with (Z.of_N (Z.to_N v)) in H by (apply Z2N.id; lia).
+    assert (Hl : kb_lt (Z.to_N v)) by (unfold kb_lt; lia).
+    rewrite (kbtype_number_known _ Hl) in H. inversion H; subst. exact Hl.
+  - rewrite kbtype_number_unknown in H by lia. discriminate.
+  - rewrite kbtype_number_unknown in H by lia. discriminate.
 Qed.
 
 Lemma init_rows : in_effect init_config = row_by_number (kb_compat init_config) /\
@@ -610,7 +623,7 @@ Qed.
 
 Lemma get_str_selkeys_unfold (c : config) :
   config_get_str name_selection_keys c =
-  if existsb (N.eqb 0) (map sel_key_char (sel_keys c)) then SPanic else SOk (map sel_key_char (sel_keys c)).
+  if existsb (N.eqb 0) (map sel_key_char (sel_keys c)) then SError else SOk (map sel_key_char (sel_keys c)).
 Proof. reflexivity. Qed.
 
 Lemma set_str_selkeys_unfold (s : list N) (c : config) :
@@ -619,6 +632,15 @@ Lemma set_str_selkeys_unfold (s : list N) (c : config) :
   then (c_OK, with_sel_keys (pad_keys (Z.to_nat c_MAX_SELKEY) (map Z.of_N s)) c)
   else (c_ERROR, c).
 Proof. reflexivity. Qed.
+
+(* accepted = exactly ten ASCII characters *)
+Lemma sel_keys_acceptable_spec (s : list N) :
+  sel_keys_acceptable s = true <-> List.length s = 10%nat /\ is_ascii s = true.
+Proof.
+  unfold sel_keys_acceptable. rewrite andb_true_iff, Z.eqb_eq. change c_MAX_SELKEY with 10. split.
+  - intros [Hl Ha]. rewrite (str_len_ascii s Ha) in Hl. split; [lia | exact Ha].
+  - intros [Hl Ha]. rewrite (str_len_ascii s Ha), Hl. split; [reflexivity | exact Ha].
+Qed.
 
 Lemma selkeys_stored_read_back (s : list N) (c : config) :
   List.length s = 10%nat -> is_ascii s = true -> cstring s ->
@@ -630,82 +652,91 @@ Proof.
   rewrite (map_sel_key_char_ascii s Ha), (existsb_zero_false s Hc). reflexivity.
 Qed.
 
-(* ASCII strings: accepted iff exactly 10 characters, and then read back unchanged *)
-Lemma set_str_selkeys_ascii (s : list N) (c : config) :
-  is_ascii s = true -> cstring s ->
-  (List.length s = 10%nat ->
+(* EVERY string: accepted => OK, read back unchanged by both getters, nothing else changes;
+   otherwise ERROR and the whole context unchanged *)
+Lemma set_str_selkeys_spec (s : list N) (c : config) :
+  cstring s ->
+  (sel_keys_acceptable s = true ->
      exists c', config_set_str name_selection_keys s c = (c_OK, c') /\
                 config_get_str name_selection_keys c' = SOk s /\
                 get_selKey c' = map Z.of_N s /\
-                opts c' = opts c /\ kb_compat c' = kb_compat c /\ in_effect c' = in_effect c) /\
-  (List.length s <> 10%nat -> config_set_str name_selection_keys s c = (c_ERROR, c)).
+                opts c' = opts c /\ kb_compat c' = kb_compat c /\ in_effect c' = in_effect c /\
+                syl_pending c' = syl_pending c) /\
+  (sel_keys_acceptable s = false -> config_set_str name_selection_keys s c = (c_ERROR, c)).
 Proof.
-  intros Ha Hc. rewrite set_str_selkeys_unfold.
-  unfold sel_keys_acceptable. try rewrite Ha. rewrite (str_len_ascii s Ha). split; intros Hl.
-  - rewrite Hl. cbn [Z.of_nat Pos.of_succ_nat Pos.succ Z.eqb Pos.eqb andb].
-    eexists. split; [reflexivity|]. split; [now apply selkeys_stored_read_back|].
-    split; [|repeat split].
-    unfold get_selKey. cbn [with_sel_keys sel_keys]. change (Z.to_nat c_MAX_SELKEY) with 10%nat.
-    replace 10%nat with (List.length (map Z.of_N s)) by (now rewrite map_length). apply pad_keys_exact.
-  - assert (Hne : Z.of_nat (List.length s) <> 10) by lia. apply Z.eqb_neq in Hne. rewrite Hne. reflexivity.
+  intros Hc. rewrite set_str_selkeys_unfold. split; intros Hacc; rewrite Hacc; [|reflexivity].
+  apply sel_keys_acceptable_spec in Hacc as [Hl Ha].
+  eexists. split; [reflexivity|]. split; [now apply selkeys_stored_read_back|].
+  split; [|repeat split].
+  unfold get_selKey. cbn [with_sel_keys sel_keys]. change (Z.to_nat c_MAX_SELKEY) with 10%nat.
+  replace 10%nat with (List.length (map Z.of_N s)) by (now rewrite map_length). apply pad_keys_exact.
 Qed.
 
 (* set_selKey with ten ASCII keys = the named option with the same keys as a string *)
 Lemma set_selKey_is_named (s : list N) (c : config) :
-  List.length s = 10%nat -> is_ascii s = true -> cstring s ->
+  sel_keys_acceptable s = true ->
   set_selKey (Some (map Z.of_N s)) 10 c = snd (config_set_str name_selection_keys s c).
 Proof.
-  intros Hl Ha Hc. destruct (set_str_selkeys_ascii s c Ha Hc) as [H _]. destruct (H Hl) as (c' & Hs & _).
-  rewrite set_str_selkeys_unfold in *.
-  destruct (sel_keys_acceptable s); [|discriminate]. cbn [snd].
+  intros Hacc. rewrite set_str_selkeys_unfold, Hacc. cbn [snd].
+  apply sel_keys_acceptable_spec in Hacc as [Hl Ha].
   unfold set_selKey. cbn [Z.eqb Pos.eqb]. f_equal.
   change (Z.to_nat c_MAX_SELKEY) with 10%nat.
   assert (Hm : List.length (map Z.of_N s) = 10%nat) by (now rewrite map_length).
   rewrite <- Hm at 2. rewrite pad_keys_exact. rewrite <- Hm. apply firstn_all.
 Qed.
 
-(* ------------------------------------------------------------------ refutations on the faithful model
-   (pinned tree before the fix: commits; each witness is replayed on the implementation by
-   `c16 replay`, see corpus/C16-*.json) *)
-
-(* KB_DVORAK and KB_DVORAK_HSU: the two tables select different keyboards *)
-Lemma kb_tables_differ_witness :
-  kb_table_differences = [KB_Dvorak; KB_DvorakHsu] /\
-  row_by_name KB_Dvorak <> row_by_number KB_Dvorak /\
-  row_by_name KB_DvorakHsu <> row_by_number KB_DvorakHsu.
-Proof. split; [vm_compute; reflexivity | split; vm_compute; discriminate]. Qed.
-
-Lemma kb_tables_agree_elsewhere :
-  forall k, kb_lt k -> k <> KB_Dvorak -> k <> KB_DvorakHsu -> row_by_name k = row_by_number k.
+(* config_get_str(selection_keys) is the string of the keys chewing_get_selKey returns whenever
+   these are non-NUL bytes, and an error (never a panic) exactly when a key's low byte is NUL *)
+Lemma get_str_selkeys_spec (c : config) :
+  (Forall (fun k => 0 < k < 256) (get_selKey c) ->
+     config_get_str name_selection_keys c = SOk (map Z.to_N (get_selKey c))) /\
+  (config_get_str name_selection_keys c = SError <-> exists k, In k (get_selKey c) /\ as_u8 k = 0%N).
 Proof.
-  intros k Hk H1 H2. apply (kb_tables_agree_outside_spec [KB_Dvorak; KB_DvorakHsu]); [vm_compute; reflexivity | exact Hk|].
-  intros [H|[H|[]]]; congruence.
+  rewrite get_str_selkeys_unfold. unfold get_selKey. split.
+  - intros Hall.
+    assert (Hm : map sel_key_char (sel_keys c) = map Z.to_N (sel_keys c)).
+    { induction Hall as [|k l Hk Hl IH]; cbn [map]; [reflexivity|]. rewrite IH. f_equal.
+      unfold sel_key_char. apply as_u8_small. lia. }
+    rewrite Hm. destruct (existsb (N.eqb 0) (map Z.to_N (sel_keys c))) eqn:E; [|reflexivity].
+    exfalso. apply existsb_exists in E as (x & Hx & He). apply N.eqb_eq in He. subst x.
+    apply in_map_iff in Hx as (k & Hk & Hin). rewrite Forall_forall in Hall. specialize (Hall k Hin). lia.
+  - destruct (existsb (N.eqb 0) (map sel_key_char (sel_keys c))) eqn:E; split; intros H; try discriminate; try reflexivity.
+    + apply existsb_exists in E as (x & Hx & He). apply N.eqb_eq in He. subst x.
+      apply in_map_iff in Hx as (k & Hk & Hin). exists k. split; [exact Hin | exact Hk].
+    + exfalso. destruct H as (k & Hin & Hk).
+      assert (Hex : existsb (N.eqb 0) (map sel_key_char (sel_keys c)) = true).
+      { apply existsb_exists. exists 0%N. split; [|reflexivity]. apply in_map_iff. exists k. split; assumption. }
+      congruence.
 Qed.
 
-(* after config_set_str("chewing.keyboard_type", "KB_DVORAK") the getters report layout 6 while
-   the keyboard in effect is not the one chewing_set_KBType(6) installs *)
-Lemma layout_in_effect_witness :
-  let c := run [OpSetStr name_keyboard_type (codes "KB_DVORAK")] init_config in
-  get_KBType c = 6 /\ in_effect c = ("Qwerty", "Standard::new") /\
-  in_effect (snd (set_KBType 6 init_config)) = ("Dvorak", "Standard::new") /\ ~ layout_inv c.
+(* ------------------------------------------------------------------ T12: the two tables agree; the full invariant *)
+
+Lemma kb_tables_agree : tables_agree.
 Proof.
-  cbv zeta. repeat split; try (vm_compute; reflexivity).
-  intros (_ & H & _). vm_compute in H. discriminate.
+  intros k Hk. apply (kb_tables_agree_outside_spec []); [vm_cast_no_check (eq_refl true) | exact Hk | intros []].
 Qed.
 
-(* chewing_set_KBType(257): an unknown number, yet KB_HSU is selected and 0 returned *)
-Lemma set_KBType_truncation_witness :
-  ~ (0 <= 257 < Z.of_N n_kb) /\ fst (set_KBType 257 init_config) = 0 /\
-  kb_compat (snd (set_KBType 257 init_config)) = KB_Hsu.
-Proof. repeat split; try (vm_compute; reflexivity). vm_compute. intros [_ H]. discriminate. Qed.
+Lemma kb_table_differences_none : kb_table_differences = [].
+Proof. vm_compute. reflexivity. Qed.
 
-(* "ééééé": ten bytes, five characters; accepted, five keys stored, then config_get_str panics *)
-Lemma selection_keys_witness :
-  let s := [233; 233; 233; 233; 233]%N in
-  cstring s /\ fst (config_set_str name_selection_keys s init_config) = c_OK /\
-  get_selKey (snd (config_set_str name_selection_keys s init_config)) = [233; 233; 233; 233; 233; 0; 0; 0; 0; 0] /\
-  config_get_str name_selection_keys (snd (config_set_str name_selection_keys s init_config)) = SPanic.
+Lemma layout_inv_run (ops : list op) : layout_inv (run ops init_config).
+Proof. exact (layout_inv_run_if_tables_agree kb_tables_agree ops). Qed.
+
+(* keyboard_type by name, both directions in one statement *)
+Lemma set_str_keyboard_spec (s : list N) (c : config) :
+  (forall k, kb_parse s = Some k ->
+     let '(r, c') := config_set_str name_keyboard_type s c in
+     r = c_OK /\ kb_compat c' = k /\ in_effect c' = row_by_name k /\
+     config_get_str name_keyboard_type c' = SOk s /\ opts c' = opts c /\ sel_keys c' = sel_keys c) /\
+  (kb_parse s = None -> config_set_str name_keyboard_type s c = (c_ERROR, c)).
+Proof. split; [intros k; apply set_str_keyboard_ok | apply set_str_keyboard_err]. Qed.
+
+(* selecting a layout by number and by name is the same operation *)
+Lemma set_by_number_is_set_by_name (k : N) (c : config) :
+  kb_lt k ->
+  snd (set_KBType (Z.of_N k) c) = snd (config_set_str name_keyboard_type (codes (kb_name k)) c).
 Proof.
-  cbv zeta. repeat split; try (vm_compute; reflexivity).
-  unfold cstring. cbn. intros H. repeat destruct H as [H|H]; try discriminate. exact H.
+  intros Hk. unfold set_KBType, config_set_str. rewrite (kbtype_number_known k Hk).
+  rewrite String.eqb_refl. destruct kb_conv_parts as (H1 & _). rewrite (proj2 (H1 k Hk)).
+  cbn [snd]. now rewrite (kb_tables_agree k Hk).
 Qed.
